@@ -118,3 +118,81 @@ def extend(g, api):
         e = one(r'if\s+(count\s*[<>=]+\s*MAX_STREAM_COUNT)\s*\{\s*return\s+Err\(TransportError::FRAME_ENCODING_ERROR', b, 'received_max_streams bound')
         return tr_expr(e, {'MAX_STREAM_COUNT': 'maxStreamCount', 'count': 'count'})
     fun('maxStreamsUnrepresentable', ['count'], f'{STATE}::received_max_streams bound test', rms_bound, ty='Bool')
+
+    # ---- zero_rtt_rejected: what the rejection resets (absent assignment = the field is kept)
+    def rejected_assign(field, param):
+        b = body(STATE, 'zero_rtt_rejected')
+        m = re.findall(r'self\.' + field + r'\s*=\s*([^;]+);', b)
+        if len(m) > 1:
+            raise TE(f'zero_rtt_rejected: {field} assigned {len(m)} times')
+        if not m:
+            return param
+        return tr_expr(m[0], {})
+    fun('rejectedUnackedData', ['old'], f'{STATE}::zero_rtt_rejected unacked_data', lambda: rejected_assign('unacked_data', 'old'))
+    fun('rejectedMaxData', ['old'], f'{STATE}::zero_rtt_rejected max_data', lambda: rejected_assign('max_data', 'old'))
+
+    def rejected_blocked():
+        b = body(STATE, 'zero_rtt_rejected')
+        n = len(re.findall(r'self\.streams_blocked\b[^\n]*=', b))
+        if n == 0:
+            return 'false'
+        if n == 1 and re.search(r'self\.streams_blocked\s*=\s*\[\s*false\s*;\s*2\s*\]\s*;', b):
+            return 'true'
+        raise TE('zero_rtt_rejected: streams_blocked assignment not recognised')
+    g.term('rejectedClearsStreamsBlocked', 'Bool', f'{STATE}::zero_rtt_rejected streams_blocked', rejected_blocked)
+
+    # ---- set_receive_window: shrink debt cancelled by an expansion
+    def cancelled():
+        b = body(STATE, 'set_receive_window')
+        if not re.search(r'if\s+receive_window\s*>\s*self\.receive_window\s*\{', b):
+            raise TE('set_receive_window: expand test changed')
+        m = re.findall(r'let\s+cancelled\s*=\s*([^;]+);', b)
+        if not m:
+            if re.search(r'saturating_add\(\s*receive_window\s*-\s*self\.receive_window\s*\)', b):
+                return '0'      # the whole difference is new credit
+            raise TE('set_receive_window: expansion arithmetic not recognised')
+        if len(m) != 1:
+            raise TE('set_receive_window: several `cancelled`')
+        need = [r'let\s+growth\s*(?::\s*u64\s*)?=\s*receive_window\s*-\s*self\.receive_window\s*;',
+                r'self\.receive_window_shrink_debt\s*-=\s*cancelled\s*;',
+                r'saturating_add\(\s*growth\s*-\s*cancelled\s*\)']
+        for n in need:
+            if not re.search(n, b):
+                raise TE(f'set_receive_window: expected /{n}/')
+        return tr_expr(m[0], {'growth': 'growth', 'self.receive_window_shrink_debt': 'debt'})
+    fun('recvWindowCancelled', ['growth', 'debt'], f'{STATE}::set_receive_window cancelled debt', cancelled)
+
+    # ---- received_reset: how much of the stream was credited before the reset
+    def reset_credited():
+        b = body(STATE, 'received_reset')
+        m = re.findall(r'let\s+credited\s*=\s*([^;]+);', b)
+        if not m:
+            if re.search(r'if\s+bytes_read\s*!=\s*final_offset\.into_inner\(\)', b) and \
+               re.search(r'add_read_credits\(u64::from\(final_offset\)\s*-\s*bytes_read\)', b):
+                return 'bytesRead'
+            raise TE('received_reset: credit arithmetic not recognised')
+        if len(m) != 1:
+            raise TE('received_reset: several `credited`')
+        for n in [r'if\s+credited\s*!=\s*final_offset\.into_inner\(\)',
+                  r'add_read_credits\(u64::from\(final_offset\)\s*-\s*credited\)',
+                  r'let\s+stopped\s*=\s*rs\.stopped\s*;', r'let\s+end\s*=\s*rs\.end\s*;',
+                  r'let\s+bytes_read\s*=\s*rs\.assembler\.bytes_read\(\)\s*;']:
+            if not re.search(n, b):
+                raise TE(f'received_reset: expected /{n}/')
+        return tr_expr(m[0], {'stopped': 'stopped', 'end': 'end_', 'bytes_read': 'bytesRead'})
+    g.term('resetCredited (stopped : Bool) (end_ : Nat) (bytesRead : Nat)', 'Nat',
+           f'{STATE}::received_reset credited', reset_credited)
+
+    # ---- Recv::stop: is the credit for unread data issued only while the stream is still receiving
+    def stop_credits_guarded():
+        b = body(RECV, 'stop')
+        m = re.findall(r'let\s+read_credits\s*=\s*([^;]+);', b)
+        if len(m) != 1:
+            raise TE('Recv::stop: expected exactly one `let read_credits = ..;`')
+        e = re.sub(r'\s+', ' ', m[0]).strip()
+        if e == 'self.end - self.assembler.bytes_read()':
+            return 'false'
+        if e == 'if self.is_receiving() { self.end - self.assembler.bytes_read() } else { 0 }':
+            return 'true'
+        raise TE(f'Recv::stop: read_credits expression not recognised: {e}')
+    g.term('stopCreditsOnlyReceiving', 'Bool', f'{RECV}::Recv::stop read_credits', stop_credits_guarded)
